@@ -25,7 +25,8 @@ Definition gAction (v : value) : action :=
   | 8 => AChghost (gS (a 1%nat)) (gS (a 2%nat)) (gS (a 3%nat))
   | 9 => ANames (gS (a 1%nat)) (gB (a 2%nat)) (gB (a 3%nat))
   | 10 => AWho (gS (a 1%nat))
-  | _ => AReset
+  | 11 => AReset
+  | _ => AIsupport (gN (a 1%nat))
   end.
 
 (* ---- encoding ---- *)
